@@ -50,6 +50,7 @@ Matches(o) ==
 StrictNext ==
   /\ Consume
   /\ \/ Ev.op = "register" /\ M!Register(Ev.runner)
+     \/ Ev.op = "reregister" /\ M!Reregister(Ev.runner)
      \/ Ev.op = "req" /\ M!Req(Ev.new, Ev.runner)
   /\ \A f \in Fams : Matches(Ev[f])
   /\ UNCHANGED obs
